@@ -86,9 +86,19 @@ class Explorer:
         self.feas_queries += 1
         s = z3.Solver()
         s.set('timeout', FEAS_TIMEOUT_MS)
-        s.add(*self.base_hyps)
-        s.add(*self.st.pc)
-        s.add(*extra)
+        # quantified / lambda facts are left out of the quick queries (z3 does not honour its timeout
+        # inside model-based quantifier instantiation): dropping hypotheses only makes the quick
+        # answers more conservative (more paths kept, fewer shortcuts taken)
+        # recursive functions are abstracted to uninterpreted twins here (fast, weaker): the quick answers
+        # only prune paths and choose modelling shortcuts, every real claim is an obligation
+        from . import recfuns
+        for h in list(self.base_hyps) + list(self.st.pc):
+            if not has_quantifier(h):
+                s.add(_abs_cached(h))
+        for e in extra:
+            if has_quantifier(e):
+                return z3.unknown
+            s.add(recfuns.abstract(e))
         return s.check()
 
     def feasible(self, cond=None) -> bool:
@@ -234,3 +244,42 @@ def _empty_fact(cond):
     except Exception:
         return None
     return None
+
+
+_HQ = {}
+
+
+def has_quantifier(t) -> bool:
+    key = t.get_id()
+    r = _HQ.get(key)
+    if r is not None:
+        return r[1]
+    res = False
+    stack = [t]
+    seen = set()
+    while stack:
+        x = stack.pop()
+        i = x.get_id()
+        if i in seen:
+            continue
+        seen.add(i)
+        if z3.is_quantifier(x):
+            res = True
+            break
+        if z3.is_app(x):
+            stack.extend(x.children())
+    _HQ[key] = (t, res)
+    return res
+
+
+_ABS = {}
+
+
+def _abs_cached(t):
+    from . import recfuns
+    k = t.get_id()
+    r = _ABS.get(k)
+    if r is None or not r[0].eq(t) or r[2] != len(recfuns.REC):
+        r = (t, recfuns.abstract(t), len(recfuns.REC))
+        _ABS[k] = r
+    return r[1]
